@@ -503,7 +503,62 @@ func (u *plUpstream) Exchange(req *dns.Msg) (resp *dns.Msg, err error) {
 	resp.SetReply(req)
 	resp.Rcode = m.Rcode
 	resp.AuthenticatedData = u.upAD
+	// round 6: the authority and additional sections and the TC flag of the
+	// scripted message are kept by Copy / SetReply; the question is the
+	// request's, written in another case when the script says so
+	switch plScriptQCase(m) {
+	case plQLower:
+		resp.Question[0].Name = strings.ToLower(resp.Question[0].Name)
+	case plQUpper:
+		resp.Question[0].Name = strings.ToUpper(resp.Question[0].Name)
+	}
 	return resp, nil
+}
+
+// A scripted upstream message is never sent as it is (the mock copies it
+// into a reply to the request), so its own question section is free: a
+// single question named plQLower / plQUpper makes the mock write the
+// request's question lower-cased / upper-cased into its answer (round 6).
+const (
+	plQLower = "qcase:lower"
+	plQUpper = "qcase:upper"
+)
+
+func plScriptQCase(m *dns.Msg) string {
+	if m != nil && len(m.Question) == 1 && (m.Question[0].Name == plQLower || m.Question[0].Name == plQUpper) {
+		return m.Question[0].Name
+	}
+	return ""
+}
+
+// plSetQCase marks the scripted message (how = plQLower, plQUpper or "").
+func plSetQCase(m *dns.Msg, how string) {
+	m.Question = nil
+	if how != "" {
+		m.Question = []dns.Question{{Name: how}}
+	}
+}
+
+// plOtherNs / plOtherExtra: the authority section without SOA records (their
+// presence is a flag of its own in the model), the additional section without
+// OPT (dnsproxy removes the upstream's and adds its own when the request had
+// one).
+func plOtherNs(m *dns.Msg) (rrs []dns.RR) {
+	for _, rr := range m.Ns {
+		if _, ok := rr.(*dns.SOA); !ok {
+			rrs = append(rrs, rr)
+		}
+	}
+	return rrs
+}
+
+func plOtherExtra(m *dns.Msg) (rrs []dns.RR) {
+	for _, rr := range m.Extra {
+		if _, ok := rr.(*dns.OPT); !ok {
+			rrs = append(rrs, rr)
+		}
+	}
+	return rrs
 }
 func (u *plUpstream) Address() string { return "pl.mock" }
 func (u *plUpstream) Close() error    { return nil }
@@ -1144,7 +1199,14 @@ func plHasSOA(m *dns.Msg) bool {
 }
 
 func plRespCoq(m *dns.Msg) string {
-	return vfApp("mkResp", vfN(uint64(m.Rcode)), plRRsCoq(m.Answer), vfBool(plHasSOA(m)))
+	ns, extra, qc := plOtherNs(m), plOtherExtra(m), plScriptQCase(m)
+	if len(ns) == 0 && len(extra) == 0 && !m.Truncated && qc == "" {
+		return vfApp("mkResp", vfN(uint64(m.Rcode)), plRRsCoq(m.Answer), vfBool(plHasSOA(m)))
+	}
+	// round 6: the whole message
+	qcCoq := map[string]string{"": "QAsAsked", plQLower: "QLower", plQUpper: "QUpper"}[qc]
+	return vfApp("mkRespX", vfN(uint64(m.Rcode)), plRRsCoq(m.Answer), vfBool(plHasSOA(m)),
+		plRRsCoq(ns), plRRsCoq(extra), vfBool(m.Truncated), qcCoq)
 }
 
 func plReasonCoq(r filtering.Reason) string {
